@@ -372,4 +372,38 @@ theorem endBlock_within_period (p : Params) (s : St) (cb : Addr) (order : List (
     · rw [removeInvalid_total, removedMoney_zero h2.2.2, h1, ht0]; omega
     · exact ⟨by simpa [removeInvalid] using h2.1, by simpa [removeInvalid] using h2.2.1, removeInvalid_valid s1⟩
 
+def unfinishedVal (r : WRec) : Int := if r.finished then 0 else r.final
+
+theorem payRec_spec (n : Nat) (r : WRec) (h : 0 ≤ r.final) : unfinishedVal (payRec n r).1 + (payRec n r).2 = unfinishedVal r := by
+  unfold payRec unfinishedVal
+  split
+  · simp; intro _; omega
+  · split
+    · rename_i h2; simp [h2.2]
+    · simp
+
+theorem discardRec_finished {p : Params} {n : Nat} {r : WRec} (h : discardRec p n r = true) : unfinishedVal r = 0 := by
+  unfold discardRec at h
+  simp at h
+  simp [unfinishedVal, h.1]
+
+/-- processWithdrawQueue pays each matured unfinished record exactly once (it is marked finished in the same step) and
+never touches a finished one: balances + unfinished records are unchanged -/
+theorem processQueue_spec (p : Params) (n : Nat) (q : List WRec) (bal : List (Addr × Int)) (h : ∀ r ∈ q, 0 ≤ r.final) :
+    sumUnfinished (processQueue p n q bal).1 + sumI (processQueue p n q bal).2 = sumUnfinished q + sumI bal := by
+  induction q generalizing bal with
+  | nil => simp [processQueue]
+  | cons r t ih =>
+    have h0 := payRec_spec n r (h r List.mem_cons_self)
+    have ht : ∀ x ∈ t, 0 ≤ x.final := fun x hx => h x (List.mem_cons_of_mem _ hx)
+    have := ih (addI bal r.recipient (payRec n r).2) ht
+    rw [sumI_addI] at this
+    unfold processQueue
+    simp only
+    split
+    · rename_i hd
+      have := discardRec_finished hd
+      simp only [sumUnfinished]; unfold unfinishedVal at *; omega
+    · simp only [sumUnfinished]; unfold unfinishedVal at *; omega
+
 end YouVerif.C07
